@@ -15,7 +15,7 @@ func checkC02(p *Program, r *Report) {
 	r.NotCovered = "The three-way search itself (left-neighbour selection, right-most descent) depends on rank values at run time."
 	r.Trusted = []string{"go/ssa; pure-function summaries for openacid/low"}
 	bf := newBuilderFlow(p)
-	r.Rule("C02.branchpos", "E2", "branch bit position is independent of the keep mask given the node's key range", 3)
+	r.Rule("C02.branchpos", "E2", "branch bit position is independent of the keep mask given the node's key range", 2)
 	if flowProblems(bf, r, "C02") {
 		return
 	}
@@ -28,8 +28,9 @@ func checkC02(p *Program, r *Report) {
 	}
 	nPaths := 0
 	var cutPos []ssa.Value
+	underBuilder := trieReach(bf.builder)
 	for _, cr := range bf.it.sortedCalls() {
-		if cr.fn != bf.builder {
+		if !underBuilder[cr.fn] {
 			continue
 		}
 		switch cr.callee {
@@ -47,7 +48,20 @@ func checkC02(p *Program, r *Report) {
 				r.OK(construct, p.Pos(cr.site.Pos()), fmt.Sprintf("labels %s", cr.args[1].labels))
 			}
 			if cr.callee == idPathsOf {
-				cutPos = append(cutPos, cr.site.Common().Args[1])
+				cp := cr.site.Common().Args[1]
+				if prm, ok := cp.(*ssa.Parameter); ok && cr.fn != bf.builder {
+					// the cut is made in a helper: take the value the builder passes for that parameter
+					for _, c2 := range callsIn(bf.builder) {
+						if calleeOf(c2) == cr.fn {
+							for i, q := range cr.fn.Params {
+								if q == prm && i < len(c2.Common().Args) {
+									cp = c2.Common().Args[i]
+								}
+							}
+						}
+					}
+				}
+				cutPos = append(cutPos, cp)
 				// the label list is the only argument filtered by the keep mask
 				if len(cr.args[0].labels.withPrefix(keepLabels...)) == 0 {
 					r.Note("label list argument of PathsOf carries no keep-mask label (no de-duplication of labels?)")
